@@ -11,9 +11,9 @@ from vlib import *
 SLICES = (
     ("", ["Field", "Const", "Attribute", "Width", "Left", "FormatString", "MakeFormat", "AddGlobal", "RemoveGlobal", "Render"]),
     ("_opts", ["Field", "Const", "Width", "Left", "FormatString", "Separator", "NewCreator", "MakeFormat", "Render"]),
-    ("_seps", ["Const", "Width", "Separator", "NewCreator", "MakeFormat", "Render"]),
+    ("_seps", ["Const", "Width", "Separator", "NewCreator", "MakeFormat", "Render", "Stream"]),
     ("_attrs", ["Attribute", "MakeFormat", "AddGlobal", "RemoveGlobal", "EnterScope", "LeaveScope", "AddMsg", "RemoveMsgLast",
-                "RemoveMsg", "Render"]),
+                "RemoveMsg", "Render", "Stream"]),
 )
 
 
